@@ -4054,10 +4054,10 @@ void SoPlexBase<R>::_untransformEquality(SolRational& sol)
          assert(_basisStatusRows[row] != SPxSolverBase<R>::BASIC
                 || _basisStatusCols[col] != SPxSolverBase<R>::BASIC);
 
+         // (the reduced cost and dual vectors may be empty here, e.g. without a dual feasible solution: do not index them)
          SPxOut::debug(this,
-                       "slack column {} for row {}: col status={}, row status={}, redcost={}, dual={}\n",
-                       col, row, _basisStatusCols[col], _basisStatusRows[row],
-                       sol._redCost[col].str(), sol._dual[row].str());
+                       "slack column {} for row {}: col status={}, row status={}\n",
+                       col, row, _basisStatusCols[col], _basisStatusRows[row]);
 
          if(_basisStatusRows[row] != SPxSolverBase<R>::BASIC)
          {
